@@ -2,6 +2,7 @@ package props
 
 import (
 	"github.com/protobom/protobom/pkg/sbom"
+	"google.golang.org/protobuf/proto"
 	"verifharness/internal/core"
 	"verifharness/internal/gen"
 )
@@ -187,6 +188,26 @@ func c10Case(c *core.C) {
 		c.Cover("shared-node-attribute-checks")
 		if f, why := precedenceCheck(nodeByID(X, id), nodeByID(b0, id), nodeByID(a0, id)); why != "" {
 			c.Violatef("intersect-attr-"+f, det, "Intersect: node %s: %s", id, why)
+			return
+		}
+	}
+	// "the same rule as union": whatever union does with a shared node (its kind included), intersection does too
+	var U *sbom.NodeList
+	if guard(c, "Union", det, func() { U = gen.Clone(A).Union(gen.Clone(B)) }) {
+		return
+	}
+	for id := range ids {
+		xn, un := nodeByID(X, id), nodeByID(U, id)
+		if xn == nil || un == nil {
+			continue
+		}
+		c.Evals(1)
+		if xn.Type != un.Type {
+			c.Violatef("intersect-differs-from-union-rule:type", det, "shared node %s: intersection gives kind %s, union of the same operands gives %s (operands have %s and %s)", id, xn.Type, un.Type, nodeByID(a0, id).Type, nodeByID(b0, id).Type)
+			return
+		}
+		if !proto.Equal(xn, un) {
+			c.Violatef("intersect-differs-from-union-rule", det, "shared node %s differs between A∩B and A∪B: %s", id, firstDiff(un, xn))
 			return
 		}
 	}
